@@ -4,6 +4,7 @@
 #include <verif_stubs_common.h>
 #include <script/script.h>
 #include <limits>
+#include "c12_ref.h"
 
 #ifndef LEN
 #define LEN 4
@@ -65,6 +66,10 @@ extern "C" void h_encode()
     bool ok = false;
     for (int l = 0; l <= 9; l++) if (l == len) ok = ref_decode(b, l) == x && ref_minimal(b, l) && (l > 0) == (x != 0);
     VASSERT(ok, "serialize yields the minimal sign-magnitude encoding of the value");
+    if (x > -(1LL << 47) && x < (1LL << 47)) {   // (the reference handles items of <= MAXL = 6 bytes; a larger value reaching it traps, it is never silently wrong) the stand-in used by the EvalScript harnesses (verif_repl_serialize = r_encode) is byte-identical to the real serialize
+        const Item e = r_encode(x); bool same = e.len == len; for (int i = 0; i < 9 && i < MAXL; i++) if (i < len && e.b[i] != b[i]) same = false;
+        VASSERT(same, "reference encoder r_encode (stand-in for serialize in evalop/evalseq/evalmono) equals CScriptNum::serialize for every |value| < 2^47");
+    }
     verif_observe((uint64_t)len);
     VWITNESS(len == 8, "8-byte encoding reachable (9 bytes would need |x| >= 2^63, i.e. only the excluded INT64_MIN)"); VWITNESS(len == 0, "zero encodes as the empty string"); VWITNESS(len == 1 && x < 0, "negative one-byte"); VREACH("end");
 }
